@@ -2174,8 +2174,8 @@ CGNSDLL int cg_goto_fc1(int fn, int B, char *c_name, int index)
     c_index[1] = 0;
 
     if (ier == 0) {
-      if (c_label[0][0] == ' ' || 0 == strncmp(c_label[0],"end",3) ||
-          0 == strncmp(c_label[0],"END",3)) {
+      if (c_label[0][0] == 0 || 0 == strcmp(c_label[0],"end") ||
+          0 == strcmp(c_label[0],"END")) {
         n=0;
       } else {
         n=1;
@@ -2214,8 +2214,8 @@ CGNSDLL int cg_gorel_fc1(int fn, char* c_name, int index)
     c_index[1] = 0;
 
     if (ier == 0) {
-      if (c_label[0][0] == ' ' || 0 == strncmp(c_label[0],"end",3) ||
-          0 == strncmp(c_label[0],"END",3)) {
+      if (c_label[0][0] == 0 || 0 == strcmp(c_label[0],"end") ||
+          0 == strcmp(c_label[0],"END")) {
         n=0;
       } else {
         n=1;
